@@ -69,6 +69,11 @@ pub enum AtEnd {
   Close,
   /// close(), then keep using the closed handle for a few more receives (must be rejected)
   CloseThenUse,
+  /// close(), convert the closed handle (sync <-> async), then keep using it (must be rejected)
+  CloseThenConvertUse,
+  /// close(), clone the closed handle, drop the original, then poll the clone (whatever a clone
+  /// of a closed handle is, it must not bring a disconnected channel back)
+  CloseThenCloneUse,
 }
 
 #[derive(Clone, Debug, Serialize, Deserialize, PartialEq)]
@@ -420,14 +425,32 @@ pub(crate) fn run_consumer(idx: usize, nprod: usize, c: &Consumer, mut rx: Box<d
   let _ = done;
   match c.at_end {
     AtEnd::Drop => {}
-    AtEnd::Close | AtEnd::CloseThenUse => {
+    AtEnd::Close | AtEnd::CloseThenUse | AtEnd::CloseThenConvertUse | AtEnd::CloseThenCloneUse => {
       ctx::fault_fired(FaultKind::HandleDropMidRun);
       let inv = next_seq();
       let ok = rx.close();
       record(actor, hid, inv, EvK::RxClose { ok });
-      if c.at_end == AtEnd::CloseThenUse {
+      let mut forms: &[RecvForm] = &[RecvForm::Try, RecvForm::Single, RecvForm::TryBatch, RecvForm::Timeout];
+      if c.at_end == AtEnd::CloseThenConvertUse {
+        rx = rx.convert();
+      }
+      if c.at_end == AtEnd::CloseThenCloneUse {
+        if let Some(cl) = rx.try_clone() {
+          let nid = sh.handle_id();
+          let inv = next_seq();
+          record(actor, hid, inv, EvK::RxClone { to: nid });
+          let inv = next_seq();
+          drop(rx);
+          record(actor, hid, inv, EvK::RxDrop);
+          rx = cl;
+          hid = nid;
+          // the clone may be a live receiver: only forms that cannot block
+          forms = &[RecvForm::Try, RecvForm::TryBatch, RecvForm::Try];
+        }
+      }
+      if c.at_end != AtEnd::Close {
         // a closed handle must reject every further operation
-        for form in [RecvForm::Try, RecvForm::Single, RecvForm::TryBatch, RecvForm::Timeout] {
+        for form in forms.iter().copied() {
           let is_async = rx.is_async();
           let inv = next_seq();
           let (form, out) = do_recv(&mut rx, form, 2, 1000, Plan::NONE);
